@@ -213,4 +213,87 @@ example : (step cfg0 (run cfg0 (init true)
     [.read ⟨0, .r⟩ Option.none, .advance 81, .read ⟨0, .r⟩ Option.none, .advance 161,
      .read ⟨0, .r⟩ (some (.num 8))]) (.write ⟨2, .w⟩ ⟨.num 8, false⟩ true [])).2.res = .raiseHw := by decide
 
+/-! ## 4. Recovery: the protocol is never stuck while the hardware can be reconnected -/
+
+/-- a tick in state OK (also Issue / Disconnected) does nothing -/
+theorem tick_noop (cfg : Cfg) (s : State) (ok : Bool) (h : s.st ≠ .reconnect ∧ s.st ≠ .error) :
+    (step cfg s (.tick ok)).1 = s := by
+  simp [step, h.1, h.2]
+
+theorem ticks_in_ok_stay (cfg : Cfg) (s : State) (h : s.st = .ok) (k : Nat) :
+    run cfg s (List.replicate k (.tick true)) = s := by
+  induction k with
+  | zero => rfl
+  | succ k ih =>
+    simp only [List.replicate_succ, run, List.foldl_cons]
+    rw [tick_noop cfg s true (by simp [h])]
+    exact ih
+
+/-- on a back-off tick a reconnect that succeeds brings the state to OK and the tag to Connected — from
+    Reconnect and from Error alike -/
+theorem reconnect_ok_on_backoff_tick (cfg : Cfg) (s : State) (hst : s.st = .reconnect ∨ s.st = .error)
+    (hb : isBackoff cfg.bk s.rt = true) :
+    (step cfg s (.tick true)).1.st = .ok ∧ (step cfg s (.tick true)).1.disc = false ∧
+    (step cfg s (.tick true)).2.reconn = some true := by
+  rcases hst with h | h <;> simp [step, h, hb, statusOf]
+
+/-- between back-off ticks a tick only counts -/
+theorem tick_counts (cfg : Cfg) (s : State) (ok : Bool) (hst : s.st = .reconnect ∨ s.st = .error)
+    (hb : isBackoff cfg.bk s.rt = false) :
+    (step cfg s (.tick ok)).1.st = s.st ∧ (step cfg s (.tick ok)).1.rt = s.rt + 1 := by
+  rcases hst with h | h <;> simp [step, h, hb]
+
+/-- Full statement (recovery): in Reconnect or Error, if the `d`-th tick from now is a back-off tick, then
+    `d + 1` ticks on which the hardware accepts the reconnect end in state OK with the tag reading Connected
+    (earlier back-off ticks recover earlier; further ticks in OK change nothing). -/
+theorem recovers_within (cfg : Cfg) (d : Nat) : ∀ (s : State), (s.st = .reconnect ∨ s.st = .error) →
+    isBackoff cfg.bk (s.rt + d) = true →
+    (run cfg s (List.replicate (d + 1) (.tick true))).st = .ok ∧
+    (run cfg s (List.replicate (d + 1) (.tick true))).disc = false := by
+  induction d with
+  | zero =>
+    intro s hst hb
+    have := reconnect_ok_on_backoff_tick cfg s hst (by simpa using hb)
+    simpa [run] using ⟨this.1, this.2.1⟩
+  | succ d ih =>
+    intro s hst hb
+    simp only [List.replicate_succ (n := d + 1), run, List.foldl_cons]
+    cases hb0 : isBackoff cfg.bk s.rt with
+    | true =>
+      have h := reconnect_ok_on_backoff_tick cfg s hst hb0
+      have := ticks_in_ok_stay cfg (step cfg s (.tick true)).1 h.1 (d + 1)
+      simp only [run] at this
+      rw [this]; exact ⟨h.1, h.2.1⟩
+    | false =>
+      have h := tick_counts cfg s true hst hb0
+      have := ih (step cfg s (.tick true)).1 (by rw [h.1]; exact hst) (by rw [h.2]; rw [← hb]; congr 1; omega)
+      simpa [run] using this
+
+/-- a back-off tick is never further away than twice the largest back-off value -/
+theorem backoff_tick_within (bk : List Nat) (last : Nat) (hl : bk.getLast? = some last) (hpos : 0 < last) (n : Nat) :
+    ∃ d, d ≤ 2 * last ∧ isBackoff bk (n + d) = true := by
+  have h1 : last * (n / last) ≤ n := Nat.mul_div_le n last
+  have h2 : n < last * (n / last + 1) := Nat.lt_mul_div_succ n hpos
+  have e1 : last * (n / last + 1) = last * (n / last) + last := by rw [Nat.mul_add, Nat.mul_one]
+  have e2 : last * (n / last + 2) = last * (n / last) + 2 * last := by rw [Nat.mul_add]; omega
+  generalize last * (n / last) = p at h1 h2 e1 e2
+  refine ⟨last * (n / last + 2) - n, by omega, ?_⟩
+  have heq : n + (last * (n / last + 2) - n) = last * (n / last + 2) := by omega
+  rw [heq]
+  have hlt : last < last * (n / last + 2) := by omega
+  simp [isBackoff, hl, hlt, Nat.mul_mod_right]
+
+/-- Never stuck in Error (or Reconnect) while `connect()` succeeds: within `2·max(back-off) + 1` ticks the
+    state is OK again and Connection Status reads Connected. -/
+theorem never_stuck (cfg : Cfg) (last : Nat) (hl : cfg.bk.getLast? = some last) (hpos : 0 < last) (s : State)
+    (hst : s.st = .reconnect ∨ s.st = .error) :
+    ∃ k, k ≤ 2 * last + 1 ∧ (run cfg s (List.replicate k (.tick true))).st = .ok ∧
+      (run cfg s (List.replicate k (.tick true))).disc = false := by
+  obtain ⟨d, hd, hb⟩ := backoff_tick_within cfg.bk last hl hpos s.rt
+  exact ⟨d + 1, by omega, recovers_within cfg d s hst hb⟩
+
+example : (run cfg0 (run cfg0 (init true)
+    [.read ⟨0, .r⟩ Option.none, .advance 81, .read ⟨0, .r⟩ Option.none, .advance 161,
+     .read ⟨0, .r⟩ (some (.num 8)), .tick false, .tick false]) (List.replicate 1 (.tick true))).st = .ok := by decide
+
 end OPM.C23
